@@ -357,6 +357,25 @@ pub fn c12(run: &Run) -> (u64, u64) {
             (Err((k, d)), _, _) | (_, Err((k, d)), _) | (_, _, Err((k, d))) => run.violation(&k, format!("{k}|{}", a.join(" ; ")), case(&a), d),
         }
     });
+    // after `bench` the engine must still be the engine it was configured to be
+    {
+        let pos = "position fen r3k2r/p1ppqpb1/bn2pnp1/3PN3/1p2P3/2N2Q1p/PPPBBPPP/R3K2R w KQkq - 0 1";
+        let a: Vec<String> = vec!["setoption name Hash value 1".into(), "bench".into(), "ucinewgame".into(), pos.into(), "go depth 7".into()];
+        let f: Vec<String> = vec!["setoption name Hash value 1".into(), pos.into(), "go depth 7".into()];
+        let bin2 = bin.clone();
+        let a2 = a.clone();
+        let h = std::thread::spawn(move || run_script(&bin2, &a2, true));
+        let rf = run_script(&bin, &f, true);
+        match (h.join().unwrap_or(Err(("blackbox-bench-failed".into(), "thread".into()))), rf) {
+            (Ok(x), Ok(y)) => {
+                if x.last() != y.last() {
+                    run.violation("blackbox-ucinewgame-not-fresh", "blackbox-bench-then-search".into(), case(&a), format!("optimised build: after [{}] the search answers {:?}; a freshly started process given [{}] answers {:?}", a.join(" ; "), x.last().map(|v| v.0.last().cloned()), f.join(" ; "), y.last().map(|v| v.0.last().cloned())));
+                }
+            }
+            (Err((k, d)), _) | (_, Err((k, d))) => run.violation(&k, format!("{k}|bench-then-search"), case(&a), d),
+        }
+        n.fetch_add(1, Ordering::Relaxed);
+    }
     // the engine's own bench (87 positions, depth 10): node totals of two processes must agree
     if !run.quick() {
         let bin2 = bin.clone();
